@@ -91,6 +91,9 @@ def exhaustive_patterns(maxlen):
     return out
 
 
+UNKNOWN = object()   # the peer's ACK payload for the pending packet cannot be attributed from the observations
+
+
 class C02(PropCheck):
     prop = "C02"
     rule = ("sessions of consecutive send()/resend() calls on a real RF24 against a peer radio, with generated loss patterns "
@@ -213,7 +216,7 @@ class C02(PropCheck):
                             consumed = before[: len(before) - len(after)] if after == before[len(before) - len(after):] else None
                             if consumed is not None and int(rb["feat"]) & 2:
                                 exp = consumed[0] if consumed else (peer_last if (t[1] == "resend" or was_failed == b) and peer_last else "T")
-                                if res != exp:
+                                if exp is not UNKNOWN and res != exp:
                                     what = f"returned {res}, the peer's ACK payload for this packet was {exp}"
                                     break
                     if t[1] != "resend" and res == "F":
@@ -223,12 +226,25 @@ class C02(PropCheck):
                 if k > 0 and ops[k - 1]["radios"]:
                     before = [x.split(":")[1] for x in ops[k - 1]["radios"][1]["txf"][1:-1].split(",") if x.startswith("A1:")]
                     after = [x.split(":")[1] for x in rb["txf"][1:-1].split(",") if x.startswith("A1:")]
-                    if len(before) > len(after):
-                        peer_last = before[0]
-                    elif t[1] != "resend" and was_failed not in bufs:
-                        peer_last = None if not any(r["data"] in bufs for r in recs) or True else peer_last
-                    if t[1] != "resend" and len(before) == len(after) and not (was_failed in bufs):
+                    nconsumed = len(before) - len(after)
+                    # which payload is still failing after this call, and which ACK payload did the peer attach when it
+                    # first accepted *that* packet?  The peer consumes one pending ACK payload per newly accepted packet,
+                    # in order; the packets it newly accepted in this call are the new entries of its RX FIFO.
+                    left_now = [x.split(":")[1] for x in ra["txf"][1:-1].split(",") if x]
+                    still = left_now[0] if left_now else None
+                    rx_before = [x.split(":")[1] for x in ops[k - 1]["radios"][1]["rxf"][1:-1].split(",") if x]
+                    rx_after = [x.split(":")[1] for x in rb["rxf"][1:-1].split(",") if x]
+                    newly = rx_after[len(rx_before):] if rx_after[: len(rx_before)] == rx_before else None
+                    if still is None:
                         peer_last = None
+                    elif newly is None:
+                        peer_last = UNKNOWN            # the peer's RX FIFO was flushed/overflowed inside the call: not attributable
+                    elif still in newly:
+                        i = newly.index(still)
+                        peer_last = before[i] if i < nconsumed else None
+                    elif t[1] != "resend" and was_failed != still:
+                        peer_last = None               # a new payload that the peer has not accepted yet
+                    # else: the same packet keeps failing and was accepted earlier: peer_last stays
                 # after a successful (or flushed) call nothing of an older payload may remain queued
                 if t[1] != "resend":
                     left = [x.split(":")[1] for x in ra["txf"][1:-1].split(",") if x]
